@@ -19,6 +19,10 @@ pub struct Prepared {
     pub cid_bytes: Option<Vec<u8>>,
     pub ct_val: Option<String>,
     pub chunks: Vec<Vec<u8>>,
+    /// the body stream yields its chunks and then an ERROR instead of a clean end
+    pub broken: bool,
+    /// the request line says HTTP/1.0
+    pub http10: bool,
     pub op_prefix: String,
     pub route_class: String,
     pub seg_class: String,
@@ -36,10 +40,14 @@ pub fn run_request(web: WebServer, prep: &Prepared) -> std::thread::Result<RawRe
     let cid_bytes = prep.cid_bytes.clone();
     let ct_val = prep.ct_val.clone();
     let chunks = prep.chunks.clone();
+    let (broken, http10) = (prep.broken, prep.http10);
     std::panic::catch_unwind(std::panic::AssertUnwindSafe(|| {
         actix_rt::System::new().block_on(async move {
             let app = test::init_service(App::new().configure(|c| web.config(c))).await;
             let mut rq = test::TestRequest::default().method(method).uri(&uri);
+            if http10 {
+                rq = rq.version(actix_web::http::Version::HTTP_10);
+            }
             if let Some(b) = cid_bytes {
                 rq = rq.insert_header((
                     actix_web::http::header::HeaderName::from_static("x-client-id"),
@@ -49,7 +57,7 @@ pub fn run_request(web: WebServer, prep: &Prepared) -> std::thread::Result<RawRe
             if let Some(ct) = ct_val {
                 rq = rq.insert_header(("Content-Type", ct));
             }
-            let req = if chunks.len() <= 1 {
+            let req = if chunks.len() <= 1 && !broken {
                 // what a real client sends with a body of known length
                 let total: usize = chunks.iter().map(|c| c.len()).sum();
                 if total > 0 {
@@ -61,7 +69,11 @@ pub fn run_request(web: WebServer, prep: &Prepared) -> std::thread::Result<RawRe
                 for c in &chunks {
                     sender.feed_data(actix_web::web::Bytes::copy_from_slice(c));
                 }
-                sender.feed_eof();
+                if broken {
+                    sender.set_error(actix_web::error::PayloadError::Incomplete(None));
+                } else {
+                    sender.feed_eof();
+                }
                 let req = rq.to_request();
                 let (req, _) = req.replace_payload(actix_http::Payload::from(pl));
                 req
@@ -159,6 +171,9 @@ impl HCtx {
     /// resolve symbolic parts against the current state and build the raw request bytes
     pub fn build(&mut self, toks: &[&str]) -> Prepared {
         let (method_s, route, seg, cid, ctype, body) = (toks[0], toks[1], toks[2], toks[3], toks[4], toks[5]);
+        let (method_s, http10) = match method_s.strip_suffix("/1.0") { Some(m) => (m, true), None => (method_s, false) };
+        let (body, broken) = match body.strip_prefix("brk:") { Some(rest) => (format!("chunks:{rest}"), true), None => (body.to_string(), false) };
+        let body = body.as_str();
         // ---- path
         let (seg_class, seg_bytes): (String, Vec<u8>) = if seg == "-" {
             ("-".into(), vec![])
@@ -256,6 +271,13 @@ impl HCtx {
             self.l1.canon.register_chunked(&whole, &toks);
             chunks.iter().zip(toks.iter()).map(|(c, t)| format!("{}:{}", c.len(), t)).collect()
         };
+        let mut chunk_strs = chunk_strs;
+        if broken {
+            // what the model is told about a body that breaks off: a further chunk that can never be
+            // accepted (longer than the limit) — the request is refused with 400 before any storage
+            // call either way, which is all the model says about it
+            chunk_strs.push("104857601:-".to_string());
+        }
         let chunks_class = if chunk_strs.is_empty() { "-".to_string() } else { chunk_strs.join(";") };
         let mclass = match method_s { "GET" => "get", "POST" => "post", _ => "other" };
         Prepared {
@@ -264,6 +286,8 @@ impl HCtx {
             cid_bytes,
             ct_val: ct_val.map(|s| s.to_string()),
             chunks,
+            broken,
+            http10,
             op_prefix: format!("http {mclass} {route_class} {seg_class} {cid_class} {ct_class} {chunks_class}"),
             route_class: route_class.to_string(),
             seg_class,
